@@ -57,10 +57,11 @@ def main(run):
                 "in notes); per metric a history of type-appropriate (y_true, y_pred) calls issued through 1-3 loss wrappers and an "
                 "explainer SHARING one metric object in random interleaving; after every call the returned value must equal "
                 "sign * (fresh metric after that single pair) (NaN-aware, 1e-9) and metric.get() its value before the first call; a "
-                "confident predictions (exact 0/1, probabilities down to 1e-300); groups of 2-3 metrics sharing one confusion matrix (cm=) each used as a loss; recording subclass of the metric observes whether scalars ('output' entry) or the whole dict reached it; "
+                "confident predictions (exact 0/1, probabilities down to 1e-300); the metric handed to a static IncrementalSage with loss_bigger_is_better off / on (model_loss must be the running mean of the fresh-metric, smaller-is-better losses plus the documented offset); groups of 2-3 metrics sharing one confusion matrix (cm=) each used as a loss; recording subclass of the metric observes whether scalars ('output' entry) or the whole dict reached it; "
                 "evaluations = loss calls judged; non-trivial = distinct (metric, y_true, y_pred) with a non-zero loss")
     run.assumptions = ["the shared metric is touched only through the loss wrappers / explainers",
                        "fresh-metric semantics: a new instance of the same class with default arguments"]
+    run.require_count("eval:explainer-route")
     run.require("ixai/utils/wrappers/river.py:RiverMetricToLossFunction.__call__",
                 "ixai/utils/validators/loss.py:validate_loss_function")
     rnd = random.Random(run.shard_seed)
@@ -403,6 +404,72 @@ def main(run):
                 break
             if got == got and got != 0:
                 run.nontriv(("shared-cm", tuple(chosen), n_, repr(yt), repr(yp)))
+    # ---- the metric handed to an EXPLAINER under each of its documented options (dynamic / static mode, SAGE's
+    # loss_bigger_is_better): the loss the explainer applies is still "fresh metric after the single pair, smaller is better".
+    # Observed through the public model_loss / marginal-free route: a static-mode explainer reports the running mean of the losses
+    # of the explained observations (plus SAGE's documented offset 1 with loss_bigger_is_better=True).
+    route_cfgs = [("Accuracy", "cls"), ("MAE", "reg"), ("F1", "bin"), ("MSE", "reg"), ("BalancedAccuracy", "cls"), ("Precision", "bin")]
+    for rep, (mname, mkind) in enumerate(route_cfgs * (1 if run.tier == "quick" else 4)):
+        if rep % nsh != sh or mname not in accepted:
+            continue
+        for lbib in (False, True):
+            metric = getattr(M, mname)()
+            sign = -1.0 if getattr(metric, "bigger_is_better", False) else 1.0
+            rs = random.Random(1000 * rep + lbib + run.seed)
+            random.seed(rep); np.random.seed(rep)
+            fnames = ["a", "b"]
+
+            def model(x, _k=mkind):
+                if _k == "reg":
+                    return {"output": 0.5 * x["a"] - x["b"]}
+                if _k == "bin":
+                    return {"output": bool(x["a"] > 0.4)}
+                return {"output": int(x["a"] > 0.4) + int(x["b"] > 0.7)}
+            try:
+                e = IncrementalSage(model, metric, fnames, loss_bigger_is_better=lbib, dynamic_setting=False, n_inner_samples=1)
+            except Exception as ex:
+                run.violation("loss-raises", f"IncrementalSage({mname}(), loss_bigger_is_better={lbib}) raised {type(ex).__name__}: {ex}",
+                              {"metric": mname, "explainer_route": True, "loss_bigger_is_better": lbib})
+                continue
+            ref_losses = []
+            okr = True
+            for t in range(14):
+                x = {"a": rs.random(), "b": rs.random()}
+                pred = model(x)["output"]
+                if mkind == "reg":
+                    y = pred + rs.choice([0.0, 0.25, -1.0, 2.0])
+                elif mkind == "bin":
+                    y = pred if rs.random() < 0.6 else (not pred)
+                else:
+                    y = pred if rs.random() < 0.6 else (pred + 1) % 3
+                try:
+                    e.explain_one(x, y)
+                except Exception as ex:
+                    run.violation("loss-raises", f"IncrementalSage with {mname}() (loss_bigger_is_better={lbib}) call {t} raised {type(ex).__name__}: {ex}",
+                                  {"metric": mname, "explainer_route": True, "loss_bigger_is_better": lbib})
+                    okr = False
+                    break
+                if t == 0:
+                    continue
+                fresh = getattr(M, mname)()
+                fresh.update(y, pred)
+                ref_losses.append(sign * fresh.get())
+                want = sum(ref_losses) / len(ref_losses) + (1.0 if lbib else 0.0)
+                got = e.model_loss
+                run.ok(kind="explainer-route")
+                if not (abs(float(got) - want) <= 1e-9 * max(1.0, abs(want))):
+                    run.violation("not-fresh-value", f"IncrementalSage(static, loss_bigger_is_better={lbib}) with {mname}(): model_loss after {t + 1} calls is {got!r}; "
+                                                     f"the mean of the fresh-metric losses (smaller is better) {'plus the documented offset 1 ' if lbib else ''}is {want!r}",
+                                  {"metric": mname, "explainer_route": True, "loss_bigger_is_better": lbib, "call": t})
+                    okr = False
+                    break
+                if not same(metric.get(), getattr(M, mname)().get()):
+                    run.violation("metric-state-changed", f"{mname} used by IncrementalSage(loss_bigger_is_better={lbib}): metric.get() moved to {metric.get()!r}",
+                                  {"metric": mname, "explainer_route": True, "loss_bigger_is_better": lbib, "call": t})
+                    okr = False
+                    break
+            if okr:
+                run.nontriv(("explainer-route", mname, lbib))
     run.notes["accepted_metrics"] = accepted
     run.notes["rejected_metrics"] = rejected
     run.notes["max_abs_deviation_from_fresh"] = maxdev
